@@ -440,8 +440,133 @@ fn run(v: &Value) -> Result<String, String> {
                     }
                 }
             }
+            // ---- every kind of producer failure is a failure for the consumer (never a clean end), at and off chunk boundaries ----
+            {
+                use std::io::ErrorKind as K;
+                let kinds: Vec<(&'static str, K)> = vec![("other", K::Other), ("brokenpipe", K::BrokenPipe), ("unexpectedeof", K::UnexpectedEof), ("connectionreset", K::ConnectionReset),
+                    ("connectionaborted", K::ConnectionAborted), ("wouldblock", K::WouldBlock), ("timedout", K::TimedOut), ("interrupted", K::Interrupted), ("writezero", K::WriteZero), ("invaliddata", K::InvalidData)];
+                for compression in [Compression::None, Compression::Zstd] {
+                    let cname = if matches!(compression, Compression::None) { "none" } else { "zstd" };
+                    let kinds2 = kinds.clone();
+                    let router = repe::Router::new().with_writer_stream(
+                        repe::BodyFormat::RawBinary,
+                        move |resource: &str| {
+                            let mut it = resource.split(':');
+                            let n: usize = it.next()?.parse().ok()?;
+                            let kind = kinds2.iter().find(|k| Some(k.0) == it.clone().next()).map(|k| k.1)?;
+                            Some(move |w: &mut dyn std::io::Write| -> std::io::Result<()> {
+                                let data: Vec<u8> = (0..n).map(|i| (i * 7 + 3) as u8).collect();
+                                w.write_all(&data)?;
+                                Err(std::io::Error::new(kind, "producer aborted"))
+                            })
+                        },
+                        StreamOpts { chunk_bytes: chunk, compression, zstd_level: 3, session_depth: 2 },
+                    );
+                    let server = repe::Server::new(router);
+                    let listener = server.listen("127.0.0.1:0").unwrap();
+                    let addr = listener.local_addr().unwrap();
+                    std::thread::spawn(move || { let _ = server.serve(listener); });
+                    let client = repe::Client::connect(addr).map_err(|e| e.to_string())?;
+                    for n in [0usize, 1, chunk, chunk + chunk / 2, 3 * chunk + 1] {
+                        for (kname, _) in &kinds {
+                            let res = format!("{n}:{kname}");
+                            cases += 1;
+                            if let Ok(b) = repe::pull_to_vec(&client, &res) {
+                                return Err(format!("[{cname}] a producer that wrote {n} bytes and then failed with io::ErrorKind::{kname} was delivered as a clean stream of {} bytes", b.len()));
+                            }
+                            let path = dir.join(format!("kind-{cname}-{n}-{kname}.bin"));
+                            if repe::pull_to_file(&client, &res, &path).is_ok() || path.exists() {
+                                return Err(format!("[{cname}] pull_to_file published a file for a producer that failed with io::ErrorKind::{kname} after {n} bytes"));
+                            }
+                        }
+                    }
+                }
+            }
+            // ---- reader producers: the source may return short reads anywhere; only Ok(0) ends it ----
+            {
+                struct Short { data: Vec<u8>, pos: usize, step: usize }
+                impl std::io::Read for Short {
+                    fn read(&mut self, b: &mut [u8]) -> std::io::Result<usize> {
+                        let n = b.len().min(self.step).min(self.data.len() - self.pos);
+                        b[..n].copy_from_slice(&self.data[self.pos..self.pos + n]);
+                        self.pos += n;
+                        Ok(n)
+                    }
+                }
+                for compression in [Compression::None, Compression::Zstd] {
+                    let cname = if matches!(compression, Compression::None) { "none" } else { "zstd" };
+                    let router = repe::Router::new().with_reader_stream(
+                        move |resource: &str| -> Option<Box<dyn std::io::Read + Send>> {
+                            let mut it = resource.split(':');
+                            let n: usize = it.next()?.parse().ok()?;
+                            let data: Vec<u8> = (0..n).map(|i| (i * 11 + 5) as u8).collect();
+                            Some(match it.next()? {
+                                "cursor" => Box::new(std::io::Cursor::new(data)),
+                                "chain" => { let cut = n / 3; let tail = data[cut..].to_vec(); let head = data[..cut].to_vec(); Box::new(std::io::Read::chain(std::io::Cursor::new(head), std::io::Cursor::new(tail))) }
+                                "onebyte" => Box::new(Short { data, pos: 0, step: 1 }),
+                                "short100" => Box::new(Short { data, pos: 0, step: 100 }),
+                                _ => return None,
+                            })
+                        },
+                        StreamOpts { chunk_bytes: chunk, compression, zstd_level: 3, session_depth: 2 },
+                    );
+                    let server = repe::Server::new(router);
+                    let listener = server.listen("127.0.0.1:0").unwrap();
+                    let addr = listener.local_addr().unwrap();
+                    std::thread::spawn(move || { let _ = server.serve(listener); });
+                    let client = repe::Client::connect(addr).map_err(|e| e.to_string())?;
+                    for n in [0usize, 1, chunk - 1, chunk, chunk + 1, 3 * chunk, 3 * chunk + 7] {
+                        let expect: Vec<u8> = (0..n).map(|i| (i * 11 + 5) as u8).collect();
+                        for kind in ["cursor", "chain", "onebyte", "short100"] {
+                            cases += 1;
+                            let got = repe::pull_to_vec(&client, &format!("{n}:{kind}")).map_err(|e| format!("[{cname}] reader stream {n}:{kind} failed: {e}"))?;
+                            if got != expect { return Err(format!("[{cname}] a {kind} reader source of {n} bytes was delivered as {} bytes (a short read is not end of input; only Ok(0) is)", got.len())); }
+                        }
+                    }
+                }
+            }
+            // ---- verified pullers: a rejecting verifier publishes nothing, for trailer_len 0 and 8, blocking and async ----
+            {
+                let router = repe::Router::new().with_reader_stream(
+                    move |resource: &str| { let n: usize = resource.parse().ok()?; Some(std::io::Cursor::new((0..n).map(|i| (i * 13 + 1) as u8).collect::<Vec<u8>>())) },
+                    StreamOpts { chunk_bytes: chunk, compression: Compression::None, zstd_level: 3, session_depth: 2 },
+                );
+                let server = repe::Server::new(router);
+                let listener = server.listen("127.0.0.1:0").unwrap();
+                let addr = listener.local_addr().unwrap();
+                std::thread::spawn(move || { let _ = server.serve(listener); });
+                let client = repe::Client::connect(addr).map_err(|e| e.to_string())?;
+                let aclient = rt.block_on(repe::AsyncClient::connect(addr)).map_err(|e| e.to_string())?;
+                let n = 2 * chunk + 9;
+                let all: Vec<u8> = (0..n).map(|i| (i * 13 + 1) as u8).collect();
+                for trailer_len in [0usize, 8] {
+                    for accept in [false, true] {
+                        for which in ["sync", "async", "async-plain"] {
+                            if which == "async-plain" && trailer_len != 0 { continue; }
+                            cases += 1;
+                            let path = dir.join(format!("ver-{trailer_len}-{accept}-{which}.bin"));
+                            std::fs::write(&path, b"previous").unwrap();
+                            let verdict = move |_d: Vec<u8>, _t: &[u8]| -> Result<(), repe::RepeError> { if accept { Ok(()) } else { Err(repe::RepeError::Io(std::io::Error::other("digest mismatch"))) } };
+                            let r: Result<(), String> = match which {
+                                "sync" => repe::value_stream::pull_to_file_trailer_verified(&client, &n.to_string(), &path, trailer_len, Vec::<u8>::new(), verdict).map_err(|e| e.to_string()),
+                                "async" => rt.block_on(repe::value_stream::pull_to_file_trailer_verified_async(&aclient, &n.to_string(), &path, trailer_len, Vec::<u8>::new(), verdict)).map_err(|e| e.to_string()),
+                                _ => rt.block_on(repe::value_stream::pull_to_file_verified_async(&aclient, &n.to_string(), &path, Vec::<u8>::new(), move |d: Vec<u8>| verdict(d, &[]))).map_err(|e| e.to_string()),
+                            };
+                            let now = std::fs::read(&path).map_err(|e| e.to_string())?;
+                            if accept {
+                                if let Err(e) = r { return Err(format!("{which} verified pull (trailer_len {trailer_len}) failed although the verifier accepted: {e}")); }
+                                if now != all[..n - trailer_len] { return Err(format!("{which} verified pull (trailer_len {trailer_len}) published {} bytes; the payload is {} bytes", now.len(), n - trailer_len)); }
+                            } else {
+                                if r.is_ok() || now != b"previous" { return Err(format!("{which} verified pull (trailer_len {trailer_len}): the verifier rejected, yet the call returned {r:?} and the destination now holds {} bytes (a rejected pull must publish nothing)", now.len())); }
+                            }
+                            let part = { let mut s = path.file_name().unwrap().to_os_string(); s.push(".svspart"); path.with_file_name(s) };
+                            if part.exists() { return Err(format!("{which} verified pull (trailer_len {trailer_len}) left a temp file behind")); }
+                        }
+                    }
+                }
+            }
             let _ = std::fs::remove_dir_all(&dir);
-            Ok(format!("{cases} producer cases x 5 pullers held"))
+            Ok(format!("{cases} producer cases held"))
         }
         "fleet_outcome_sequences" => {
             // Bounded stand-in / replay for C19: a scripted node exhibits, per accepted connection, one of the
@@ -464,16 +589,23 @@ fn run(v: &Value) -> Result<String, String> {
             let port = listener.local_addr().unwrap().port();
             let accepted = Arc::new(AtomicUsize::new(0));
             let acc2 = accepted.clone();
+            let reqs = Arc::new(AtomicUsize::new(0));
+            let reqs2 = reqs.clone();
             std::thread::spawn(move || {
                 for (i, conn) in listener.incoming().enumerate() {
                     let Ok(mut s) = conn else { break };
                     acc2.fetch_add(1, Ordering::SeqCst);
-                    let mode = script.get(i).cloned().unwrap_or_else(|| "reply_ok".to_string());
+                    let mut mode = script.get(i).cloned().unwrap_or_else(|| "reply_ok".to_string());
+                    let reqs3 = reqs2.clone();
                     std::thread::spawn(move || {
                         loop {
                             let Ok(req) = repe::read_message(&mut s) else { return };
                             if req.header.notify == 1 { continue; }
-                            match mode.as_str() {
+                            reqs3.fetch_add(1, Ordering::SeqCst);
+                            let this = mode.clone();
+                            // an application error is answered once; the same connection is healthy afterwards
+                            if mode == "app_error" { mode = "reply_ok".to_string(); }
+                            match this.as_str() {
                                 "close_after_accept" => return,
                                 "app_error" => {
                                     let mut m = repe::Message::builder().id(req.header.id).error_code(repe::ErrorCode::ApplicationErrorBase)
@@ -486,7 +618,7 @@ fn run(v: &Value) -> Result<String, String> {
                                     if repe::write_message(&mut s, &m).is_err() { return }
                                     use std::io::Write as _;
                                     let _ = s.flush();
-                                    if mode == "reply_then_close" { return }
+                                    if this == "reply_then_close" { return }
                                 }
                             }
                         }
@@ -504,6 +636,7 @@ fn run(v: &Value) -> Result<String, String> {
             let mut last_ok = false;
             for c in 0..calls {
                 let before = accepted.load(Ordering::SeqCst);
+                let reqs_before = reqs.load(Ordering::SeqCst);
                 let r = match &fleet {
                     F::S(f) => f.call_json("n", "/ping", Some(&serde_json::json!(1))).map_err(|e| e.to_string())?.into_result(),
                     F::A(f) => rt.block_on(f.call_json("n", "/ping", Some(&serde_json::json!(1)))).map_err(|e| e.to_string())?.into_result(),
@@ -512,6 +645,12 @@ fn run(v: &Value) -> Result<String, String> {
                 let opened = accepted.load(Ordering::SeqCst) - before;
                 if opened > max_attempts {
                     return Err(format!("call {c} opened {opened} connections with max_attempts {max_attempts}"));
+                }
+                let sent = reqs.load(Ordering::SeqCst) - reqs_before;
+                if let Err(e) = &r {
+                    if e.to_string().contains("nope") && sent != 1 {
+                        return Err(format!("call {c} was answered with an application error but the request was sent {sent} times: an application-level reply must not be retried"));
+                    }
                 }
                 last_ok = r.is_ok();
                 log.push(format!("call{c}:{}(+{opened}conn)", match &r { Ok(_) => "Ok".to_string(), Err(e) => format!("Err({e})") }));
@@ -690,6 +829,17 @@ fn run(v: &Value) -> Result<String, String> {
                             let got = reg.aliases_for(repe::PeerId(p as u64 + 1));
                             let want: Vec<String> = lists[p].iter().map(|k| keys[*k].to_string()).collect();
                             if got != want { return Err(format!("history {seq:?} step {step}: aliases_for({}) = {got:?}, model says {want:?}", p + 1)); }
+                        }
+                        for p in 0..3 {
+                            let got = reg.key_for(repe::PeerId(p as u64 + 1));
+                            let want: Option<String> = lists[p].first().map(|k| keys[*k].to_string());
+                            if got != want { return Err(format!("history {seq:?} step {step}: key_for({}) = {got:?}, model says {want:?} (the first alias in registration order)", p + 1)); }
+                        }
+                        {
+                            let mut got: Vec<u64> = reg.peers().iter().map(|h| h.peer_id().0).collect();
+                            got.sort();
+                            let want: Vec<u64> = (0..3).filter(|p| present[*p]).map(|p| p as u64 + 1).collect();
+                            if got != want || reg.is_empty() != want.is_empty() { return Err(format!("history {seq:?} step {step}: peers() = {got:?}, model says {want:?}")); }
                         }
                         if reg.len() != present.iter().filter(|x| **x).count() { return Err(format!("history {seq:?} step {step}: len mismatch")); }
                     }
@@ -1142,7 +1292,14 @@ fn run(v: &Value) -> Result<String, String> {
                 for k in 0..n { deep_r.push('/'); deep_r.push_str(&format!("k{k}")); }
                 paths.push(deep_r);
             }
-            for extra in ["/r~1x", "/s~0", "/sx/x", "/r/x/", "/s/x/x/", "/e/", "/é", "/r/é/~1", "/s/é/~0é"] { paths.push(extra.to_string()); }
+            for extra in ["/r~1x", "/s~0", "/sx/x", "/r/x/", "/s/x/x/", "/e/", "/é", "/r/é/~1", "/s/é/~0é", "/s/~01", "/s/a~01b", "/r/~01", "/r/a~01b/~10", "/s/~10/~00~11", "/s/k/~01~10~0~1", "/r/k/~00/~11"] { paths.push(extra.to_string()); }
+            // the public tokeniser itself, on every well-formed path of the set
+            for path in &paths {
+                if let Some(want) = tokens(path) {
+                    let got = repe::parse_json_pointer(path);
+                    if got != want { return Err(format!("parse_json_pointer({path:?}) = {got:?}; RFC 6901 tokens are {want:?}")); }
+                }
+            }
             // registration orders: 0 = exact routes, 1 = registry mount, 2 = struct mount, 3 = middleware
             let mut orders: Vec<Vec<u8>> = Vec::new();
             fn perms(cur: &mut Vec<u8>, rest: &mut Vec<u8>, out: &mut Vec<Vec<u8>>) {
@@ -1410,6 +1567,187 @@ fn run(v: &Value) -> Result<String, String> {
                     k += 1;
                 }
             }
+        }
+        "transfer_wake_scenarios" => {
+            // Bounded stand-in for C12 (a schedule sample, not a proof): a producer thread parks in wait_for_credit /
+            // wait_for_reconnect with a 6 s deadline; 150 ms later another thread fires one event that enables it; the
+            // waiter must return the matching outcome within 3 s. Correct code returns within microseconds of the
+            // event, so the margin is only there to absorb machine load.
+            use repe::stream::{CreditError, ReconnectOutcome, TransferControl};
+            use std::sync::Arc;
+            use std::time::{Duration, Instant};
+            struct S;
+            impl repe::PeerSink for S { fn send_notify(&self, _m: &str, _b: repe::NotifyBody) -> Result<(), repe::PeerSendError> { Ok(()) } }
+            let peer = || repe::PeerHandle::new(repe::PeerId(1), Arc::new(S));
+            #[derive(Debug)]
+            enum W { Credit(Result<(), String>), Reconnect(String) }
+            let run = |name: &str, setup: &dyn Fn(&TransferControl), waiter: u8, chunk: u64, event: &(dyn Fn(&TransferControl) + Sync), expect: &str| -> Result<(), String> {
+                let ctl = Arc::new(TransferControl::with_replay_capacity(1000, 1 << 20));
+                setup(&ctl);
+                let c2 = ctl.clone();
+                let t0 = Instant::now();
+                let h = std::thread::spawn(move || {
+                    if waiter == 0 {
+                        W::Credit(c2.wait_for_credit(chunk, Instant::now() + Duration::from_secs(6)).map_err(|e| match e { CreditError::Cancelled(r) => format!("cancelled:{r}"), CreditError::Timeout => "timeout".into() }))
+                    } else {
+                        W::Reconnect(match c2.wait_for_reconnect(Duration::from_secs(6)) { ReconnectOutcome::ResumeReady(p) => format!("resume:{}", p.resume_at_offset), ReconnectOutcome::Cancelled(r) => format!("cancelled:{r}"), ReconnectOutcome::Timeout => "timeout".into() })
+                    }
+                });
+                std::thread::sleep(Duration::from_millis(150));
+                if h.is_finished() { return Err(format!("{name}: the waiter did not park (returned before the event)")); }
+                event(&ctl);
+                let out = h.join().map_err(|_| format!("{name}: waiter panicked"))?;
+                let el = t0.elapsed();
+                let got = match &out { W::Credit(Ok(())) => "ok".to_string(), W::Credit(Err(e)) => e.clone(), W::Reconnect(s) => s.clone() };
+                if el > Duration::from_secs(3) { return Err(format!("{name}: the parked producer was not woken by the event it waits for: returned {got:?} after {:.1} s (event fired at 0.15 s, deadline 6 s)", el.as_secs_f64())); }
+                if got != expect { return Err(format!("{name}: woken, but returned {got:?}; expected {expect:?}")); }
+                Ok(())
+            };
+            let full = |c: &TransferControl| { c.record_sent(1000); };
+            let part = |c: &TransferControl| { c.record_sent(600); };
+            let ring = |c: &TransferControl| { for i in 0..4u64 { c.push_replay(i * 256, 256, false, vec![0u8; 8]); } c.record_sent(1024); };
+            let none = |_c: &TransferControl| {};
+            run("credit/ack-full-window", &full, 0, 500, &|c| { c.record_ack(0, 500); }, "ok")?;
+            run("credit/ack-partly-used-window", &part, 0, 500, &|c| { c.record_ack(0, 300); }, "ok")?;
+            run("credit/ack-to-zero-oversized-chunk", &full, 0, 5000, &|c| { c.record_ack(0, 1000); }, "ok")?;
+            run("credit/cancel", &full, 0, 500, &|c| { c.cancel("stop"); }, "cancelled:stop")?;
+            run("credit/advance-to-file", &full, 0, 500, &|c| { c.advance_to_file(1); }, "ok")?;
+            run("credit/resume-frees-credit", &ring, 0, 256, &|c| { let _ = c.request_resume(peer(), 0, 512); }, "ok")?;
+            run("credit/second-resume-frees-credit", &ring, 0, 256, &|c| { let _ = c.request_resume(peer(), 0, 0); let _ = c.request_resume(peer(), 0, 512); }, "ok")?;
+            run("reconnect/resume", &ring, 1, 0, &|c| { let _ = c.request_resume(peer(), 0, 256); }, "resume:256")?;
+            run("reconnect/cancel", &none, 1, 0, &|c| { c.cancel("gone"); }, "cancelled:gone")?;
+            Ok("9 wake-up scenarios held".to_string())
+        }
+        "client_stalled_writer_then_malformed" => {
+            // C06 scenario: one call is in flight (request read by the peer, no response yet); a second caller's large
+            // notify is stalled mid-write because the peer stopped reading (it holds the client's writer lock); the
+            // peer then delivers a malformed frame. Property: every call in flight returns an error rather than
+            // blocking forever. Watchdog: the in-flight call must return within `watchdog_ms` of the malformed frame.
+            use std::io::{Read as _, Write as _};
+            use std::time::{Duration, Instant};
+            let which = v.get("client").and_then(|x| x.as_str()).unwrap_or("blocking").to_string();
+            let watchdog = Duration::from_millis(v.get("watchdog_ms").and_then(|x| x.as_u64()).unwrap_or(3000));
+            let big = v.get("notify_bytes").and_then(|x| x.as_u64()).unwrap_or(32 << 20) as usize;
+            let listener = std::net::TcpListener::bind("127.0.0.1:0").map_err(|e| e.to_string())?;
+            let addr = listener.local_addr().unwrap();
+            let (go_tx, go_rx) = std::sync::mpsc::channel::<()>();
+            let (done_tx, done_rx) = std::sync::mpsc::channel::<()>();
+            let server = std::thread::spawn(move || {
+                let (mut s, _) = listener.accept().unwrap();
+                // read exactly the first (small) request, then stop reading
+                let first = repe::read_message(&mut s).unwrap();
+                go_rx.recv().ok();                       // the big notify is now stalled
+                let mut bad = repe::Header::new();
+                bad.id = first.header.id;
+                let mut bytes = bad.encode().to_vec();
+                bytes[8] = 0; bytes[9] = 0;              // spec = 0: malformed
+                let _ = s.write_all(&bytes);
+                let _ = s.flush();
+                done_rx.recv_timeout(Duration::from_secs(20)).ok();   // keep the socket open, never read again
+                let mut sink = [0u8; 1];
+                let _ = s.set_read_timeout(Some(Duration::from_millis(10)));
+                let _ = s.read(&mut sink);
+            });
+            let res: Result<String, String> = match which.as_str() {
+                "blocking" => {
+                    let client = repe::Client::connect(addr).map_err(|e| e.to_string())?;
+                    let c1 = client.clone();
+                    let (r_tx, r_rx) = std::sync::mpsc::channel();
+                    std::thread::spawn(move || { let r = c1.call_json("/in-flight", &serde_json::json!(1)); let _ = r_tx.send(r.map(|_| ()).map_err(|e| e.to_string())); });
+                    std::thread::sleep(Duration::from_millis(300));
+                    let c2 = client.clone();
+                    let stalled = std::sync::Arc::new(std::sync::atomic::AtomicBool::new(true));
+                    let st2 = stalled.clone();
+                    std::thread::spawn(move || { let payload = vec![0x41u8; big]; let r = c2.notify_with_formats("/big", 1, Some(&payload), 0); let _ = r; st2.store(false, std::sync::atomic::Ordering::SeqCst); });
+                    std::thread::sleep(Duration::from_millis(700));
+                    if !stalled.load(std::sync::atomic::Ordering::SeqCst) { return Err("setup: the large notify did not stall".into()); }
+                    go_tx.send(()).ok();
+                    let t0 = Instant::now();
+                    match r_rx.recv_timeout(watchdog) {
+                        Ok(Err(e)) => Ok(format!("in-flight call failed after {:?}: {e}", t0.elapsed())),
+                        Ok(Ok(())) => Err("in-flight call returned Ok although its connection delivered a malformed frame".into()),
+                        Err(_) => Err(format!("the in-flight call is still blocked {:?} after the malformed frame arrived (another caller's stalled write holds the writer lock that fail_all_pending takes before it fails the waiters)", watchdog)),
+                    }
+                }
+                "async" => {
+                    let rt = tokio::runtime::Builder::new_multi_thread().worker_threads(4).enable_all().build().unwrap();
+                    let out = rt.block_on(async {
+                        let client = repe::AsyncClient::connect(addr).await.map_err(|e| e.to_string())?;
+                        let c1 = client.clone();
+                        let h = tokio::spawn(async move { c1.call_json("/in-flight", &serde_json::json!(1)).await.map(|_| ()).map_err(|e| e.to_string()) });
+                        tokio::time::sleep(Duration::from_millis(300)).await;
+                        let c2 = client.clone();
+                        tokio::spawn(async move { let payload = vec![0x41u8; big]; let _ = c2.notify_with_formats("/big", 1, Some(&payload), 0).await; });
+                        tokio::time::sleep(Duration::from_millis(700)).await;
+                        go_tx.send(()).ok();
+                        let t0 = Instant::now();
+                        match tokio::time::timeout(watchdog, h).await {
+                            Ok(Ok(Err(e))) => Ok(format!("in-flight call failed after {:?}: {e}", t0.elapsed())),
+                            Ok(Ok(Ok(()))) => Err("in-flight call returned Ok although its connection delivered a malformed frame".to_string()),
+                            Ok(Err(_)) => Err("call task panicked".to_string()),
+                            Err(_) => Err(format!("the in-flight call is still blocked {:?} after the malformed frame arrived (another caller's stalled write holds the writer lock that fail_all_pending takes before it fails the waiters)", watchdog)),
+                        }
+                    });
+                    rt.shutdown_background();
+                    out
+                }
+                other => panic!("unknown client {other}"),
+            };
+            done_tx.send(()).ok();
+            let _ = server.join();
+            res
+        }
+        "async_client_cancel_leaves_no_entry" => {
+            // C06 scenario (a cancelled call leaves nothing behind, whichever await point it was cancelled at): a large
+            // notify is stalled mid-write (the peer is not reading) and holds the writer; a forward with a caller-chosen
+            // id queues behind it and is aborted there; the peer then drains. The id must be free again (a leaked
+            // pending entry is visible as "request id N is already pending") and the client must keep serving calls.
+            use std::io::Write as _;
+            use std::time::Duration;
+            let big = v.get("notify_bytes").and_then(|x| x.as_u64()).unwrap_or(32 << 20) as usize;
+            let listener = std::net::TcpListener::bind("127.0.0.1:0").map_err(|e| e.to_string())?;
+            let addr = listener.local_addr().unwrap();
+            let (go_tx, go_rx) = std::sync::mpsc::channel::<()>();
+            std::thread::spawn(move || {
+                let (stream, _) = listener.accept().unwrap();
+                let mut reader = std::io::BufReader::new(stream.try_clone().unwrap());
+                let mut writer = std::io::BufWriter::new(stream);
+                let _ = go_rx.recv_timeout(Duration::from_secs(30));
+                while let Ok(req) = repe::read_message(&mut reader) {
+                    if req.header.notify != 0 { continue; }
+                    let resp = repe::Message::builder().id(req.header.id).query_bytes(req.query.clone()).body_json(&serde_json::json!({"path": req.query_utf8()})).unwrap().build();
+                    if repe::write_message(&mut writer, &resp).is_err() || writer.flush().is_err() { break; }
+                }
+            });
+            let rt = tokio::runtime::Builder::new_multi_thread().worker_threads(2).enable_all().build().unwrap();
+            let out: Result<String, String> = rt.block_on(async {
+                let client = repe::AsyncClient::connect(addr).await.map_err(|e| e.to_string())?;
+                let c1 = client.clone();
+                let bigt = tokio::spawn(async move { let payload = vec![0u8; big]; c1.notify_with_formats("/big", 1, Some(&payload), 0).await });
+                tokio::time::sleep(Duration::from_millis(500)).await;
+                if bigt.is_finished() { return Err("setup: the large notify did not stall".into()); }
+                let request = repe::Message::builder().id(7).query_str("/fwd").body_json(&serde_json::json!({"n": 1})).unwrap().build();
+                let c2 = client.clone();
+                let r2 = request.clone();
+                let queued = tokio::spawn(async move { c2.forward_message(&r2).await });
+                tokio::time::sleep(Duration::from_millis(300)).await;
+                if queued.is_finished() { return Err("setup: the forward was expected to queue behind the stalled write".into()); }
+                queued.abort();
+                let _ = queued.await;
+                go_tx.send(()).ok();
+                match tokio::time::timeout(Duration::from_secs(20), bigt).await { Ok(Ok(Ok(()))) => {}, other => return Err(format!("setup: the large notify did not complete after the peer drained: {other:?}")) }
+                match tokio::time::timeout(Duration::from_secs(10), client.forward_message_with_timeout(&request, Duration::from_secs(5))).await {
+                    Err(_) => return Err("a forward after the cancelled one hung".into()),
+                    Ok(Err(e)) => return Err(format!("the call cancelled while queued for the writer left its pending entry behind: reusing its id answers `{e}`")),
+                    Ok(Ok(None)) => return Err("forward returned no response".into()),
+                    Ok(Ok(Some(m))) => if m.header.id != 7 { return Err(format!("response id {} for request 7", m.header.id)); },
+                }
+                let ok = client.call_json_with_timeout("/ok", &serde_json::json!({}), Duration::from_secs(5)).await.map_err(|e| format!("the client stopped serving calls after a cancelled one: {e}"))?;
+                if ok["path"] != "/ok" { return Err(format!("foreign response {ok}")); }
+                Ok("cancelled-while-queued call left no entry; id reusable; client healthy".to_string())
+            });
+            rt.shutdown_background();
+            out
         }
         other => panic!("unknown replay entry `{other}`"),
     }
